@@ -126,6 +126,15 @@ def check_rt(recipe) -> list[Fail]:
             # second cycle: text fixed point (what was written is what the file says)
             if not fails and fmt is None and obj.n_atoms and back.dumps_xyz().splitlines()[2:] != text.splitlines()[2:]:
                 fails.append(Fail("geom:second-write-differs", ""))
+            if not fails and recipe.get("again") and obj.n_atoms:
+                # the same object moved / renamed in place and written again: the text must follow the current state
+                with np.errstate(all="ignore"):
+                    obj.coords = np.where(np.isfinite(obj.coords), np.asarray(obj.coords) * 0.5 - 0.75, obj.coords)
+                obj.name = "edited"
+                b2 = cls.loads_xyz(obj.dumps_xyz())
+                _cmp_geom(obj.atoms, obj.coords, b2, fails, "geom", entry + " (second write after in-place edit)")
+                for f_ in fails:
+                    f_.sig += ":second-write-after-in-place-edit"
     except HarnessError:
         raise
     except Exception as e:
@@ -232,7 +241,7 @@ def strat_rt(tier):
     molr = chem.molecule_recipe(max_atoms=30 if big else 12, max_bonds=6, attribs=False, mol2_safe=True).map(_xyzify)
     ensr = chem.ensemble_recipe(max_atoms=8, max_bonds=4, max_conf=5, attribs=False, mol2_safe=True).filter(lambda r: len(r["confs"]) >= 1).map(_xyzify)
     return st.one_of(
-        st.fixed_dictionaries({"kind": st.sampled_from(["CartesianGeometry", "Structure", "Molecule"]), "mol": molr, "entry": st.sampled_from(["loads", "loads", "load_stream", "loads_all"]), "fmt": st.integers(0, len(FMTS) - 1)}),
+        st.fixed_dictionaries({"kind": st.sampled_from(["CartesianGeometry", "Structure", "Molecule"]), "mol": molr, "entry": st.sampled_from(["loads", "loads", "load_stream", "loads_all"]), "fmt": st.integers(0, len(FMTS) - 1), "again": st.booleans()}),
         st.fixed_dictionaries({"kind": st.just("ConformerEnsemble"), "mol": ensr, "entry": st.sampled_from(["ens", "ens", "all_mol", "all_geom", "all_stream"])}),
     )
 
